@@ -13,7 +13,7 @@ CLAIMED = {
             "against the callee contracts. All inputs, no bound.",
             "DESIGN.md §4 C01",
             BASE_NOTE + " Assumed: bytes.Buffer model (Write/WriteByte/Read/Bytes/Reset/NewBuffer), math.Float*bits as bit casts. "
-            "tcp-backed DataInputX is outside the contracts (requires tcp == nil). The typed-array writers/readers are not under a byte-level contract yet.",
+            "tcp-backed DataInputX is outside the contracts (requires tcp == nil). Of the typed-array writers/readers only the text-array pair (WriteTextArray/ReadTextArray) has no byte-level contract. A semantics canary (io.verif_int3_truncates) pins Go's wrapping arithmetic in contracts that cross the two arithmetic modes.",
             TECH),
     "C02": ("proof",
             "Per value type a round-trip harness over the token view of io: decode(encode(v)) consumes the stream exactly, re-encodes to the same token stream and restores every field (floats bit-identical); "
